@@ -13,6 +13,7 @@ from ..fn import World
 from ..index import AnalysisError, dotted
 from ..astutil import text, short, endswith, calls_in, walk_no_nested, enclosing_chain
 from ..dataflow import DefUse
+from . import _h_D as H
 
 EXPLANATION = (
   "Decides, for every list of pages with non-negative indentations and every removal set, by a "
@@ -146,15 +147,16 @@ class DBM(object):
 # ============================================================================ the interpreter
 
 class State(object):
-  __slots__ = ("d", "bools", "emitted")
+  __slots__ = ("d", "bools", "emitted", "syms")
 
-  def __init__(self, d, bools=None, emitted=0):
+  def __init__(self, d, bools=None, emitted=0, syms=None):
     self.d = d
     self.bools = dict(bools or {})
     self.emitted = emitted
+    self.syms = dict(syms or {})     # local -> expression it names (item.id, a pair, a parameter)
 
   def copy(self):
-    return State(self.d.copy(), self.bools, self.emitted)
+    return State(self.d.copy(), self.bools, self.emitted, self.syms)
 
 
 class Interp(object):
@@ -168,7 +170,8 @@ class Interp(object):
     self.item = None
     self.listvar = None
     self.deleted_key = None       # name of the boolean that holds `item.id in deleted_ids`
-    self.emissions = []           # ast nodes of the append calls
+    self.emissions = []           # (append call, id expression) per emission site
+    self.cont_states = []         # states that left the loop body through `continue`
     self.ints = self._int_vars()
     self.names = [ZERO, X, K, NEW] + sorted(self.ints)
 
@@ -177,7 +180,8 @@ class Interp(object):
     out = set()
     for s in walk_no_nested(self.node):
       if isinstance(s, ast.Assign) and len(s.targets) == 1 and isinstance(s.targets[0], ast.Name):
-        if not self._is_bool_expr(s.value) and not self._is_list_expr(s.value):
+        if not self._is_bool_expr(s.value) and not self._is_list_expr(s.value) and \
+            not self._is_sym_expr(s.value):
           out.add(s.targets[0].id)
       elif isinstance(s, ast.AugAssign) and isinstance(s.target, ast.Name):
         out.add(s.target.id)
@@ -188,6 +192,26 @@ class Interp(object):
     return isinstance(e, (ast.Compare, ast.BoolOp)) or \
         (isinstance(e, ast.UnaryOp) and isinstance(e.op, ast.Not)) or \
         (isinstance(e, ast.Constant) and isinstance(e.value, bool))
+
+  def _is_sym_expr(self, e):
+    """An expression a local merely names: a field of the current item, a parameter, a pair."""
+    if isinstance(e, ast.Attribute) and isinstance(e.value, ast.Name):
+      return True
+    if isinstance(e, ast.Name) and e.id in (self.p_items, self.p_deleted):
+      return True
+    if isinstance(e, ast.Tuple):
+      return True
+    return False
+
+  @staticmethod
+  def _sym(st, e):
+    """e with locals that merely name another expression followed."""
+    for _ in range(6):
+      if isinstance(e, ast.Name) and e.id in st.syms:
+        e = st.syms[e.id]
+      else:
+        break
+    return e
 
   @staticmethod
   def _is_list_expr(e):
@@ -201,6 +225,8 @@ class Interp(object):
     if isinstance(e, ast.UnaryOp) and isinstance(e.op, ast.USub) and \
         isinstance(e.operand, ast.Constant) and isinstance(e.operand.value, int):
       return [(st, (ZERO, -e.operand.value))]
+    if isinstance(e, ast.Name) and e.id in st.syms:
+      return self.ev_int(st, self._sym(st, e))
     if isinstance(e, ast.Name):
       if e.id not in self.ints:
         raise AnalysisError("fix_indents: %s is not an integer local" % e.id)
@@ -286,7 +312,7 @@ class Interp(object):
     if isinstance(t, ast.Compare) and len(t.ops) == 1:
       op = t.ops[0]
       if isinstance(op, (ast.In, ast.NotIn)):
-        key = self._membership_key(t)
+        key = self._membership_key(st, t)
         if key not in st.bools:
           a, b = st.copy(), st.copy()
           a.bools[key] = True
@@ -333,9 +359,9 @@ class Interp(object):
       return tr, fa
     raise AnalysisError("fix_indents: condition outside the supported subset: %s" % short(t))
 
-  def _membership_key(self, t):
+  def _membership_key(self, st, t):
     """`item.id in deleted_ids`: an opaque per-item boolean, keyed by its text."""
-    l, r = t.left, t.comparators[0]
+    l, r = self._sym(st, t.left), self._sym(st, t.comparators[0])
     if not (text(l) == "%s.id" % self.item and text(r) == self.p_deleted):
       raise AnalysisError("fix_indents: membership test outside the supported subset: %s"
                           % short(t))
@@ -355,8 +381,17 @@ class Interp(object):
       return [st]
     if isinstance(s, ast.Pass):
       return [st]
+    if isinstance(s, ast.Continue):
+      if self.item is None:
+        raise AnalysisError("fix_indents: continue outside the item loop")
+      self.cont_states.append(st)
+      return []
     if isinstance(s, ast.Assign) and len(s.targets) == 1 and isinstance(s.targets[0], ast.Name):
       name = s.targets[0].id
+      if self._is_sym_expr(s.value):
+        x = st.copy()
+        x.syms[name] = s.value
+        return [x]
       if self._is_list_expr(s.value):
         if self.listvar not in (None, name):
           raise AnalysisError("fix_indents: more than one list local")
@@ -392,12 +427,13 @@ class Interp(object):
       c = s.value
       if isinstance(c.func, ast.Attribute) and c.func.attr == "append" and \
           isinstance(c.func.value, ast.Name) and c.func.value.id == self.listvar and \
-          len(c.args) == 1 and isinstance(c.args[0], ast.Tuple) and len(c.args[0].elts) == 2:
+          len(c.args) == 1 and isinstance(self._sym(st, c.args[0]), ast.Tuple) and \
+          len(self._sym(st, c.args[0]).elts) == 2:
         if self.item is None:
           raise AnalysisError("fix_indents: adjustment appended outside the item loop")
-        idx, val = c.args[0].elts
-        if c not in self.emissions:
-          self.emissions.append(c)
+        idx, val = self._sym(st, c.args[0]).elts
+        if not any(x is c for (x, _) in self.emissions):
+          self.emissions.append((c, self._sym(st, idx)))
         out = []
         try:
           vals = self.ev_int(st, val)
@@ -432,11 +468,18 @@ def analyse(fn):
     raise AnalysisError("fix_indents: expected initialisations, one loop over the items, return")
   lp = loops[0]
   i = body.index(lp)
-  if body[i + 1:] != [body[-1]] or lp.orelse:
+  view = H.View(fn)
+  between = body[i + 1:-1]
+  if lp.orelse or not all(isinstance(b, ast.Assign) and len(b.targets) == 1 and
+                          isinstance(b.targets[0], ast.Name) and isinstance(b.value, ast.Name)
+                          for b in between):
     raise AnalysisError("fix_indents: statements between the loop and the return")
-  if not (isinstance(lp.target, ast.Name) and text(lp.iter) == ip.p_items):
+  it = view.alias_root(lp.iter)
+  if not (isinstance(lp.target, ast.Name) and isinstance(it, ast.Name) and it.id == ip.p_items
+          and view.reaching(it.id, view.loop_head(lp)) == frozenset([view.ENTRY])):
     raise AnalysisError("fix_indents: the loop does not iterate the items parameter directly: %s"
                         % short(lp.iter))
+  ip.view = view
   d0 = DBM(ip.names)
   d0.assign(K, ZERO, -1)
   init = ip.block([State(d0)], body[:i])
@@ -451,7 +494,9 @@ def analyse(fn):
     st = State(head.copy())
     st.d.forget(X).forget(NEW)
     st.d.assume(ZERO, X, 0)            # assumption: indentations are non-negative
+    ip.cont_states = []
     ends = ip.block([st], lp.body)
+    ends = ends + ip.cont_states
     nxt = head
     for e in ends:
       post = _ghost_update(ip, e)
@@ -539,13 +584,16 @@ def check(run, repo, tier):
       all(o.ok for o in run.obs):
     raise AnalysisError("fix_indents: the analysis found no path that %s a page that stays"
                         % ("adjusts" if ("kept", "adjusted") not in kinds else "leaves alone"))
-  for c in ip.emissions:
-    idx = c.args[0].elts[0]
+  for (c, idx) in ip.emissions:
     run.ob(R3, q, short(c), "the adjustment is recorded under the id of the page it was computed "
            "for, as (id, new indentation)", text(idx) == "%s.id" % ip.item, fi=fn.fi, node=c)
+  rv = ip.view.alias_root(ret.value)
   run.ob(R3, q, "return %s" % ip.listvar, "the list returned is the list of adjustments",
-         isinstance(ret.value, ast.Name) and ret.value.id == ip.listvar, fi=fn.fi, node=ret)
+         isinstance(rv, ast.Name) and rv.id == ip.listvar, fi=fn.fi, node=ret)
   r4_caller(run, w, ip)
+
+
+KEEP = ("_removePageRecords",)
 
 
 def r4_caller(run, w, ip):
@@ -556,75 +604,101 @@ def r4_caller(run, w, ip):
     fn = w.fn_of(fi)
     for (n, c, nm) in fn.calls():
       if endswith(nm, "treeview.fix_indents"):
-        callers.append((fn, n, c))
+        callers.append(fi)
   if len(callers) != 1:
     raise AnalysisError("%d callers of treeview.fix_indents (one expected)" % len(callers))
-  fn, n, c = callers[0]
+  fn = H.xfn(w, callers[0].qualname, keep=KEEP)
+  v = H.View(fn)
+  n, c = [(n, c) for (n, c, nm) in fn.calls() if endswith(nm, "treeview.fix_indents")][0]
   q = fn.qualname
   cfg = fn.cfg
   ps = fn.fi.params()      # self, table_id, row_ids
-  ok = len(c.args) == 2 and text(c.args[1]) == ps[2]
+  fx = w.repo.func("treeview.fix_indents").params()
+  b = H.bind_args(c, fx) or {}
+  ok = len(b) == 2 and v.t(b[fx[1]]) == ps[2] and \
+      v.reaching(ps[2], n.id) == frozenset([v.ENTRY])
   run.ob(R4, q, "treeview.fix_indents(<pages>, %s)" % ps[2], "the ids being removed are the "
          "removal set of the fix", ok, fi=fn.fi, node=c)
-  pages = c.args[0]
+  pages = v.alias_root(b[fx[0]]) if fx[0] in b else None
   src_ok = sort_ok = False
   if isinstance(pages, ast.Name):
-    for s in walk_no_nested(fn.node):
-      if isinstance(s, ast.Assign) and text(s.targets[0]) == pages.id:
-        src_ok = text(s.value) in ("list(self._engine.tables[%s].filter_records())" % ps[1],)
-      if isinstance(s, ast.Expr) and isinstance(s.value, ast.Call) and \
-          text(s.value.func) == pages.id + ".sort":
-        k = [kw.value for kw in s.value.keywords if kw.arg == "key"]
-        sort_ok = len(k) == 1 and isinstance(k[0], ast.Lambda) and \
-            text(k[0].body) == "%s.pagePos" % k[0].args.args[0].arg and \
-            not any(kw.arg == "reverse" for kw in s.value.keywords)
-  run.ob(R4, q, "%s = list(tables[%s].filter_records())" % (text(pages), ps[1]),
+    sites = [d for d, names in v._gens().items() if pages.id in names]
+    if len(sites) == 1:
+      val = v._plain_value(pages.id, sites[0])
+      src_ok = val is not None and cfg.dominated_by(n.id, {sites[0]}) and \
+          v.t(val, at=sites[0]) in ("list(self._engine.tables[%s].filter_records())" % ps[1],
+                                    "sorted(self._engine.tables[%s].filter_records(), "
+                                    "key=lambda p: p.pagePos)" % ps[1])
+      if src_ok and v.t(val, at=sites[0]).startswith("sorted("):
+        sort_ok = True
+    sorts = set()
+    for (m, c2, nm) in fn.calls():
+      if isinstance(c2.func, ast.Attribute) and c2.func.attr == "sort" and \
+          isinstance(v.alias_root(c2.func.value), ast.Name) and \
+          v.alias_root(c2.func.value).id == pages.id and not c2.args:
+        k = [kw.value for kw in c2.keywords if kw.arg == "key"]
+        rev = [kw.value for kw in c2.keywords if kw.arg == "reverse"]
+        kf = v.res(k[0]) if len(k) == 1 else None
+        if isinstance(kf, ast.Lambda) and len(kf.args.args) == 1 and \
+            text(kf.body) == "%s.pagePos" % kf.args.args[0].arg and \
+            all(isinstance(r, ast.Constant) and not r.value for r in rev):
+          sorts.add(m.id)
+    others = {m for m in v.du.muts.get(pages.id, set()) if m not in sorts}
+    if sorts and cfg.dominated_by(n.id, sorts) and not (cfg.reach_after(sorts) & others & \
+                                                        cfg.reach({n.id}, forward=False)):
+      sort_ok = True
+  run.ob(R4, q, "<pages> = list(tables[%s].filter_records())" % ps[1],
          "every page of the document takes part (a page left out would not be fixed)", src_ok,
          fi=fn.fi)
-  run.ob(R4, q, "%s.sort(key=lambda p: p.pagePos)" % text(pages), "pages are examined in the "
+  run.ob(R4, q, "<pages>.sort(key=lambda p: p.pagePos)", "pages are examined in the "
          "order they are displayed", sort_ok, fi=fn.fi)
-  st = n.stmt
-  fv = st.targets[0].id if isinstance(st, ast.Assign) and isinstance(st.targets[0], ast.Name) \
-      else None
+  fixes_t = v.t(c)
   upd = [(m, c2) for (m, c2, nm) in fn.calls() if endswith(nm, "self.doBulkUpdateRecord")]
   rem = [(m, c2) for (m, c2, nm) in fn.calls() if endswith(nm, "self.doBulkRemoveRecord")]
   ok = False
-  if fv and len(upd) == 1 and len(upd[0][1].args) == 3:
-    a = upd[0][1].args
+  if len(upd) == 1:
+    ub = H.bind_args(upd[0][1], ("table_id", "row_ids", "columns")) or {}
+
     def comp_index(e):
-      if isinstance(e, ast.Name):
-        vals = [s.value for s in walk_no_nested(fn.node) if isinstance(s, ast.Assign) and
-                text(s.targets[0]) == e.id]
-        e = vals[0] if len(vals) == 1 else None
-      if isinstance(e, ast.ListComp) and len(e.generators) == 1 and not e.generators[0].ifs and \
-          text(e.generators[0].iter) == fv and isinstance(e.elt, ast.Subscript) and \
-          text(e.elt.value) == text(e.generators[0].target) and \
-          isinstance(e.elt.slice, ast.Constant):
-        return e.elt.slice.value
+      """k when e is [f[k] for f in <fixes>] (or the equivalent loop)"""
+      try:
+        cc = v.collection(e) if e is not None else None
+      except AnalysisError:
+        cc = None
+      if cc is None or cc.conds or cc.kind != "list" or cc.iter_text != fixes_t:
+        return None
+      for k in (0, 1):
+        if cc.value == "_v0[%d]" % k:
+          return k
       return None
-    vals = a[2]
+
+    vals = v.res(ub.get("columns")) if ub.get("columns") is not None else None
     ind = None
     if isinstance(vals, ast.Dict) and len(vals.keys) == 1 and \
         isinstance(vals.keys[0], ast.Constant) and vals.keys[0].value == "indentation":
       ind = comp_index(vals.values[0])
-    ok = text(a[0]) == ps[1] and comp_index(a[1]) == 0 and ind == 1
+    ok = len(ub) == 3 and v.t(ub["table_id"]) == ps[1] and comp_index(ub["row_ids"]) == 0 and \
+        ind == 1
   run.ob(R4, q, "doBulkUpdateRecord(%s, [f[0] for f in fixes], {'indentation': [f[1] ...]})"
          % ps[1], "element 0 of each fix is the row id and element 1 its new indentation, the "
          "order fix_indents appends them in", ok, fi=fn.fi)
-  ok = len(upd) == 1 and len(rem) == 1 and \
-      rem[0][0].id in cfg.reach_after({upd[0][0].id}) and \
-      upd[0][0].id not in cfg.reach_after({rem[0][0].id}) and \
-      cfg.dominated_by(cfg.exit.id, {rem[0][0].id}) and \
-      cfg.dominated_by(rem[0][0].id, {n.id}) and \
-      [text(x) for x in rem[0][1].args] == [ps[1], ps[2]]
+  ok = len(upd) == 1 and len(rem) == 1
+  if ok:
+    rb = H.bind_args(rem[0][1], ("table_id", "row_ids")) or {}
+    ok = rem[0][0].id in cfg.reach_after({upd[0][0].id}) and \
+        upd[0][0].id not in cfg.reach_after({rem[0][0].id}) and \
+        cfg.dominated_by(cfg.exit.id, {rem[0][0].id}) and \
+        cfg.dominated_by(rem[0][0].id, {n.id}) and \
+        [v.t(rb.get("table_id")), v.t(rb.get("row_ids"))] == [ps[1], ps[2]]
   run.ob(R4, q, "fixes applied, then doBulkRemoveRecord(%s, %s) on every path" % (ps[1], ps[2]),
          "the pages that stay are fixed while the removed pages are still there to be seen, and "
          "the removal always happens", ok, fi=fn.fi)
   # the update is skipped only when there is nothing to fix
-  g = [s.test for (s, fld) in enclosing_chain(fn.node, upd[0][0].stmt)
-       if isinstance(s, ast.If)] if len(upd) == 1 else None
-  run.ob(R4, q, "if %s: <apply>" % fv, "the fixes are applied whenever there are any",
-         g is not None and [text(t) for t in g] == [fv], fi=fn.fi)
+  g = v.facts_at(upd[0][1]) if len(upd) == 1 else None
+  run.ob(R4, q, "if <fixes>: <apply>", "the fixes are applied whenever there are any",
+         g is not None and g <= {(fixes_t, True), H.canon_atom("len(%s) > 0" % fixes_t),
+                                 H.canon_atom("len(%s) == 0" % fixes_t, False),
+                                 ("len(%s)" % fixes_t, True)}, fi=fn.fi)
 
 
 TV = "sandbox/grist/treeview.py"
